@@ -253,3 +253,140 @@ Proof. reflexivity. Qed.
 Example recreate_w1252_example :
   recreate HW1252 [147; 233] CfgNone = Some (HAbsent, [226; 128; 156; 195; 169]).
 Proof. vm_compute. reflexivity. Qed.
+
+(* ---------------------------------------------------------------- the author / committer names *)
+
+Lemma index_of_spec : forall l x k i d,
+  index_of x l k = Some i ->
+  k <= i /\ nth (N.to_nat (i - k)) l d = x /\ i - k < N.of_nat (length l).
+Proof.
+  induction l as [|y r IH]; intros x k i d H; [discriminate H|].
+  cbn [index_of] in H. destruct (x =? y) eqn:E.
+  - inversion H; subst i. replace (k - k) with 0 by lia.
+    cbn [N.to_nat nth length]. repeat split; lia.
+  - destruct (IH x (k + 1) i d H) as (Hle & Hn & Hlen).
+    replace (N.to_nat (i - k)) with (S (N.to_nat (i - (k + 1)))) by lia.
+    cbn [nth length]. repeat split; [lia|exact Hn|lia].
+Qed.
+
+Lemma w1252_high_length : length w1252_high = 32%nat.
+Proof. reflexivity. Qed.
+
+Lemma enc_w1252_cp_inv : forall c b, enc_w1252_cp c = Some b -> dec_w1252 b = c.
+Proof.
+  intros c b H. unfold enc_w1252_cp in H.
+  destruct ((c <? 128) || ((160 <=? c) && (c <=? 255))) eqn:E.
+  - inversion H; subst b. apply dec_w1252_outside_c1. lia.
+  - destruct (index_of c w1252_high 0) as [i|] eqn:Ei; [|discriminate H].
+    assert (b = 128 + i) as -> by congruence.
+    destruct (index_of_spec w1252_high c 0 i (128 + i) Ei) as (_ & Hn & Hlen).
+    rewrite w1252_high_length in Hlen.
+    unfold dec_w1252.
+    replace ((128 <=? 128 + i) && (128 + i <=? 159)) with true by lia.
+    replace (128 + i - 128) with (i - 0) by lia. exact Hn.
+Qed.
+
+Lemma enc_w1252_inv : forall t out, enc_w1252 t = Some out -> map dec_w1252 out = t.
+Proof.
+  induction t as [|c r IH]; intros out H.
+  - cbn [enc_w1252] in H. inversion H; subst out. reflexivity.
+  - cbn [enc_w1252] in H.
+    destruct (enc_w1252_cp c) as [b|] eqn:Eb; [|discriminate H].
+    destruct (enc_w1252 r) as [bs|] eqn:Ebs; [|discriminate H].
+    inversion H; subst out. cbn [map].
+    rewrite (enc_w1252_cp_inv c b Eb), (IH bs eq_refl). reflexivity.
+Qed.
+
+(* git reading UTF-8 written from a text below the surrogates sees that text *)
+Lemma git_text_of_utf8_text : forall h' t,
+  (h' = HAbsent \/ h' = HUtf8) -> Forall (fun c => c < 55296) t ->
+  git_text h' (utf8_of_text t) = Some t.
+Proof.
+  intros h' t Hh Hs.
+  assert (git_text HAbsent (utf8_of_text t) = Some t) as G.
+  { unfold git_text. rewrite utf8_of_text_valid by exact Hs.
+    rewrite utf8_to_text_of_text; [reflexivity|exact Hs|apply utf8_of_text_length]. }
+  destruct Hh as [->| ->]; exact G.
+Qed.
+
+Lemma map_dec_w1252_latin1 : forall bytes,
+  Forall (fun b => b < 128 \/ 159 < b) bytes -> map dec_w1252 bytes = map dec_latin1 bytes.
+Proof.
+  intros bytes Ho. apply map_ext_in. intros b Hin. unfold dec_latin1.
+  apply dec_w1252_outside_c1. exact (proj1 (Forall_forall _ _) Ho _ Hin).
+Qed.
+
+(* the text author_strict decodes is the text git shows, and it lies below the surrogates *)
+Lemma name_text_is_git_text : forall h bytes,
+  Forall is_byte bytes ->
+  ((h = HAbsent \/ h = HUtf8) /\ Forall (fun cp => cp < 55296) (utf8_to_text (length bytes) bytes))
+  \/ (h = HW1252 /\ Forall (fun b => w1252_undefined b = false) bytes)
+  \/ (h = HLatin1 /\ Forall (fun b => b < 128 \/ 159 < b) bytes) ->
+  forall t,
+    match h with
+    | HAbsent | HUtf8 => if utf8_valid bytes then Some (utf8_to_text (length bytes) bytes) else None
+    | HLatin1 | HW1252 => Some (map dec_w1252 bytes)
+    | HUnknown => None
+    end = Some t ->
+    git_text h bytes = Some t /\ Forall (fun cp => cp < 55296) t.
+Proof.
+  intros h bytes Hb Hh t Ht.
+  destruct Hh as [[Hu Hs]|[[-> Hu]|[-> Ho]]].
+  - destruct Hu as [->| ->]; cbn [git_text]; destruct (utf8_valid bytes); try discriminate Ht;
+      inversion Ht; subst t; split; [reflexivity|exact Hs|reflexivity|exact Hs].
+  - inversion Ht; subst t. cbn [git_text]. rewrite (existsb_undefined_false bytes Hu).
+    split; [reflexivity|apply dec_w1252_text_small; exact Hb].
+  - inversion Ht; subst t. cbn [git_text]. rewrite <- (map_dec_w1252_latin1 bytes Ho).
+    split; [reflexivity|apply dec_w1252_text_small; exact Hb].
+Qed.
+
+Lemma author_kept :
+  forall h bytes c out,
+    utf8_cfg c -> Forall is_byte bytes ->
+    ((h = HAbsent \/ h = HUtf8) /\ Forall (fun cp => cp < 55296) (utf8_to_text (length bytes) bytes))
+    \/ (h = HW1252 /\ Forall (fun b => w1252_undefined b = false) bytes)
+    \/ (h = HLatin1 /\ Forall (fun b => b < 128 \/ 159 < b) bytes) ->
+    recreate_name h bytes c = Some out ->
+    git_text (match c with CfgUtf8 => HUtf8 | _ => HAbsent end) out = git_text h bytes.
+Proof.
+  intros h bytes c out Hc Hb Hh H.
+  unfold recreate_name in H.
+  pose proof (name_text_is_git_text h bytes Hb Hh) as K.
+  destruct (match h with
+            | HAbsent | HUtf8 => if utf8_valid bytes then Some (utf8_to_text (length bytes) bytes) else None
+            | HLatin1 | HW1252 => Some (map dec_w1252 bytes)
+            | HUnknown => None
+            end) as [t|]; [|discriminate H].
+  destruct (K t eq_refl) as [G Hs]. rewrite G.
+  destruct Hc as [->| ->]; cbn [codec_of_config] in H; inversion H; subst out;
+    apply git_text_of_utf8_text; auto.
+Qed.
+
+Lemma author_encoded_with_commit_encoding :
+  forall h bytes out,
+    Forall is_byte bytes ->
+    ((h = HAbsent \/ h = HUtf8) /\ Forall (fun cp => cp < 55296) (utf8_to_text (length bytes) bytes))
+    \/ (h = HW1252 /\ Forall (fun b => w1252_undefined b = false) bytes)
+    \/ (h = HLatin1 /\ Forall (fun b => b < 128 \/ 159 < b) bytes) ->
+    recreate_name h bytes CfgW1252 = Some out ->
+    Forall (fun b => w1252_undefined b = false) out ->
+    git_text HW1252 out = git_text h bytes.
+Proof.
+  intros h bytes out Hb Hh H Hu.
+  unfold recreate_name in H.
+  pose proof (name_text_is_git_text h bytes Hb Hh) as K.
+  destruct (match h with
+            | HAbsent | HUtf8 => if utf8_valid bytes then Some (utf8_to_text (length bytes) bytes) else None
+            | HLatin1 | HW1252 => Some (map dec_w1252 bytes)
+            | HUnknown => None
+            end) as [t|]; [|discriminate H].
+  destruct (K t eq_refl) as [G _]. rewrite G.
+  cbn [codec_of_config] in H.
+  cbn [git_text]. rewrite (existsb_undefined_false out Hu).
+  rewrite (enc_w1252_inv t out H). reflexivity.
+Qed.
+
+(* non-vacuity: a UTF-8 name written under i18n.commitEncoding = windows-1252 *)
+Example recreate_name_w1252_example :
+  recreate_name HAbsent [226; 128; 156; 195; 169] CfgW1252 = Some [147; 233].
+Proof. vm_compute. reflexivity. Qed.
